@@ -49,6 +49,8 @@ def metrics_einsums(draw, n_min=1, n_max=1, max_vars=3, allow_partition=True):
     """a cascade of simple product Einsums with explicit loop orders and spacetime for every Einsum"""
     n = draw(st.integers(n_min, n_max))
     kind = draw(st.sampled_from(["plain"] * 8 + ["affine", "flatten", "flatten", "lf3", "lf3", "flatmerge", "lf2", "lf2"])) if n_min == 1 else "plain"
+    if n > 1 and kind != "plain" and draw(st.integers(0, 3)) > 0:
+        kind = "plain"         # (the special kinds are single Einsums: keep cascades frequent)
     if kind == "lf3":
         # three tensors co-iterated at one rank (leader-follower intersection of three fibers, any of them leading)
         pl = gen.plain
